@@ -386,6 +386,14 @@ func classifyDeath(o *runOut) (sig string, msg string, harness bool) {
 		}
 		repoFrames = append(repoFrames, strings.TrimSuffix(strings.TrimPrefix(f, "github.com/markusressel/fan2go/"), "("))
 	}
+	for _, hc := range []string{"found pointer to free object", "found bad pointer in Go heap", "marked free object in span", "sweep increased allocation count"} {
+		if strings.HasPrefix(first, "fatal error: "+hc) {
+			// the garbage collector found the heap corrupted: in a free-running race run this is what
+			// unsynchronised writes of multi-word values (map headers, slices, interfaces) can do; it is an
+			// abrupt termination of the program under test, not a harness matter, and has no single call site
+			return "runtime abort (heap corruption: " + hc + ")", first, false
+		}
+	}
 	if len(repoFrames) == 0 {
 		return "", "harness panic: " + first, true
 	}
